@@ -19,7 +19,19 @@ Decides (from the syntax trees of batch/batch/batch_format_version.py and batch/
       back through the writer); a field whose domain contains a legitimate falsy value (bool_type, int_type, a required str_type; domains are read off job_validator
       in front_end/validate.py, hailtop.utils.validate and, for keys added after validation, the constants front_end.py stores) must not be truth-tested, and an absent
       field must not be replaced by a truthy default (`x or D`).  Optional str/list/dict fields: empty is read as absent (the front end does the same)
-Helper methods of the class called from the writer / a reader are inlined first (engines/inline.py).  The has-files flags `len(k) OP c` are compared with `len(k) > 0` as sets of
+  R6  the region set at its STORE site (front end) and LOAD sites (drivers): every call of regions_to_bits_rep under batch/batch/front_end + driver (thorough: batch/batch)
+      encodes the job spec's `regions` list itself (no slice, no default) with app['regions']; over the finite domain {regions absent, empty, non-empty} x the truth table of every
+      other test around it, each accepted path stores regions_to_bits_rep(<that list>, ...) when the job has `regions` and NULL when it has none (NULL is read by the drivers as
+      "whatever the instance collection supports at scheduling time", so a selected set stored as NULL is not recovered); the value sits at the position of the regions_bits_rep
+      column of the INSERT.  Every call of regions_bits_rep_to_regions gets the unmodified record['regions_bits_rep'] and app['regions'], and a non-NULL column value is decoded on
+      every path (no deployment-dependent shortcut).  R4 also judges `if <test>: return <constant>` shortcuts in front of the encoder / decoder body
+  R7  the decoded value is a function of the stored value only: no reader returns an object that outlives the call (functools.lru_cache / cache on it or on a helper in its call
+      cone, a module-level container or mutable default it stores into, a module-level constant); which LEVELS of the returned object are persistent is computed exactly on the
+      recognised shapes (copies: list()/dict()/.copy() one level, per-element copies two, deepcopy all) and a violation is reported when a consumer (flow-insensitive aliasing
+      through locals / dict literals / for-zip targets in every function that calls the reader) mutates such a level - driver/job.py::job_config does (`secret['data'] = ...`,
+      `job_spec['secrets'].append(kube-config)`).  Shared but unmutated, instance-level state, unknown decorators: declined
+Helper methods of the class AND module-level helper functions called from the writer / a reader are inlined first (engines/inline.py; a memoising decorator is ignored for
+the single-call rules R1-R5 and judged by R7).  The has-files flags `len(k) OP c` are compared with `len(k) > 0` as sets of
 list lengths (interval normal form).
 Does not decide: value coercions (int(bool)/bool(int)) beyond their positions; `[]` vs `None` for an empty secrets list; decoders that enumerate bit positions with an
 inverse (id -> name) dictionary are declined.
@@ -31,19 +43,22 @@ from typing import Dict, List, Optional, Sequence, Tuple
 
 from engines import absdom, c1516facts as cf, pyfacts as pf
 from engines.common import AnalysisError, Ctx, short
-from engines.inline import inline_methods
+from engines.inline import Inliner, inline_methods
 
 META = dict(
     category='other',
     text='Writer/reader table agreement decided by abstractly executing db_spec and every get_spec_* reader for each format version 1..current '
          '(version guards evaluated, data-dependent tests enumerated) and comparing position <-> field tables, inner record key <-> index tables in '
          'both directions, the linear forms of the region bit shifts, the algebra of the bit accumulation (idempotent operator or provably distinct terms) '
-         'and a dataflow classification of every truthiness test against the value domains of the job validator (presence vs truthiness). '
+         'and a dataflow classification of every truthiness test against the value domains of the job validator (presence vs truthiness); case analysis over '
+         '{regions absent, empty, non-empty} x truth table of the surrounding tests at the store site and {NULL, not NULL} at the load sites of the region bit set; '
+         'persistence levels of the objects the readers return against the mutations their consumers perform. '
          'Level `other`: value coercions and JSON encoding are outside the tables.',
     note='Trusted: CPython ast; engines/absdom.walk_block; engines/inline.py. Assumes region ids are distinct integers >= 1 (AUTO_INCREMENT primary key, gaps allowed) and '
          'regions_bits_rep is a signed BIGINT; an empty optional str/list/dict field of the job spec is the same spec as an absent one.',
     technique='static analysis: writer/reader table agreement + truth table over version guards + linear normal form of shift amounts + def-use of the accumulated collection '
-              '+ value-descriptor dataflow of truthiness tests against validator-derived domains',
+              '+ value-descriptor dataflow of truthiness tests against validator-derived domains + finite case analysis (presence domain x truth table) of store/load sites '
+              '+ escape/alias levels of returned objects vs consumer mutations',
     design_ref='DESIGN.md §3 C15',
 )
 
@@ -348,15 +363,42 @@ def _writer_record(ctx: Ctx, fn: pf.FuncDef, lst: ast.List, src_vars: Sequence[s
     return out
 
 
-def _reader_record(ctx: Ctx, d: ast.Dict, var: str, who: str) -> Dict[str, int]:
+def _reader_record(ctx: Ctx, d: ast.Dict, pos_of, what: str, who: str) -> Dict[str, int]:
+    """key -> position of the stored record it is read from; pos_of(value expression) gives the position or None."""
     out: Dict[str, int] = {}
     for k, v in zip(d.keys, d.values):
         ks = pf.const_str(k) if k is not None else None
         v = _strip(v)
-        ok = isinstance(v, ast.Subscript) and isinstance(v.value, ast.Name) and v.value.id == var and isinstance(v.slice, ast.Constant) and isinstance(v.slice.value, int)
-        ctx.need(ks is not None and ok, f'{who}: entry `{short(pf.nsrc(k) if k else "**", 20)}: {short(pf.nsrc(v), 30)}` is not key: {var}[i]')
-        out[ks] = v.slice.value  # type: ignore[index,union-attr]
+        i = pos_of(v)
+        ctx.need(ks is not None and i is not None, f'{who}: entry `{short(pf.nsrc(k) if k else "**", 20)}: {short(pf.nsrc(v), 30)}` is not key: {what}')
+        out[ks] = i  # type: ignore[index,assignment]
     return out
+
+
+def _traces_to_spec(r: pf.FuncDef, e: ast.AST, rspec: str) -> bool:
+    """e is the stored field itself: spec[i], possibly through single-definition locals and position-preserving re-wrappings
+    (tuple(x) / list(x) / tuple(tuple(y) for y in x))."""
+    for _ in range(10):
+        if isinstance(e, ast.Name):
+            d = pf.single_def(r, e.id)
+            if d is None or not isinstance(d, ast.expr):
+                return False
+            e = d
+        elif isinstance(e, ast.Call) and isinstance(e.func, ast.Name) and e.func.id in ('tuple', 'list') and len(e.args) == 1 and not e.keywords:
+            e = e.args[0]
+        elif isinstance(e, (ast.GeneratorExp, ast.ListComp)) and len(e.generators) == 1 and not e.generators[0].ifs and isinstance(e.generators[0].target, ast.Name):
+            t = e.generators[0].target.id
+            el = e.elt
+            if isinstance(el, ast.Call) and isinstance(el.func, ast.Name) and el.func.id in ('tuple', 'list') and len(el.args) == 1 and not el.keywords:
+                el = el.args[0]
+            if not (isinstance(el, ast.Name) and el.id == t):
+                return False
+            e = e.generators[0].iter
+        elif isinstance(e, ast.Subscript) and pf.nsrc(e.value) == rspec and isinstance(e.slice, ast.Constant) and isinstance(e.slice.value, int):
+            return True
+        else:
+            return False
+    return False
 
 
 def _find_record_list(e: ast.AST) -> Tuple[Optional[ast.List], Optional[str]]:
@@ -369,12 +411,15 @@ def _find_record_list(e: ast.AST) -> Tuple[Optional[ast.List], Optional[str]]:
     return None, None
 
 
-def _find_record_dict(e: ast.AST) -> Tuple[Optional[ast.Dict], Optional[str]]:
+def _find_record_dict(e: ast.AST) -> Tuple[Optional[ast.Dict], Optional[ast.AST], Optional[ast.AST]]:
+    """`{...}` -> (dict, None, None);  `[{...} for x in xs]` / `[{...} for a, b, c in xs]` -> (dict, comprehension target, iterated expression)"""
     if isinstance(e, ast.Dict):
-        return e, None
-    if isinstance(e, ast.ListComp) and isinstance(e.elt, ast.Dict) and len(e.generators) == 1 and isinstance(e.generators[0].target, ast.Name):
-        return e.elt, e.generators[0].target.id
-    return None, None
+        return e, None, None
+    if isinstance(e, ast.ListComp) and isinstance(e.elt, ast.Dict) and len(e.generators) == 1 and not e.generators[0].ifs:
+        t = e.generators[0].target
+        if isinstance(t, ast.Name) or (isinstance(t, ast.Tuple) and all(isinstance(x, ast.Name) for x in t.elts)):
+            return e.elt, t, e.generators[0].iter
+    return None, None, None
 
 
 def _check_records(ctx: Ctx, m: pf.Module, current: int) -> None:
@@ -418,21 +463,48 @@ def _check_records(ctx: Ctx, m: pf.Module, current: int) -> None:
         wmap = _writer_record_multi(ctx, w, wl, srcs)  # type: ignore[arg-type]
         # reader side
         rd = None
-        rvar = None
+        rtarget: Optional[ast.AST] = None
+        riter: Optional[ast.AST] = None
         for n in ast.walk(r):
             if isinstance(n, ast.Return) and n.value is not None:
-                d, v = _find_record_dict(n.value)
+                d, t_, it_ = _find_record_dict(n.value)
                 if d is not None:
-                    rd, rvar = d, v
+                    rd, rtarget, riter = d, t_, it_
         ctx.need(rd is not None, f'{rname}: no record dict is returned')
-        if rvar is None:
-            names = {n.value.id for vv in rd.values for n in ast.walk(vv) if isinstance(n, ast.Subscript) and isinstance(n.value, ast.Name)}  # type: ignore[union-attr]
-            ctx.need(len(names) == 1, f'{rname}: record built from {sorted(names)}')
-            rvar = names.pop()
+        if isinstance(rtarget, ast.Name):
+            # [{k: x[i], ...} for x in <stored list>]
+            var = rtarget.id
+            ctx.need(_traces_to_spec(r, riter, rspec), f'{rname}: the records are not read from the stored spec (`{short(pf.nsrc(riter), 50)}`)')  # type: ignore[arg-type]
+            rmap = _reader_record(ctx, rd, lambda v, var=var: v.slice.value if isinstance(v, ast.Subscript) and isinstance(v.value, ast.Name) and v.value.id == var  # type: ignore[arg-type]
+                                  and isinstance(v.slice, ast.Constant) and isinstance(v.slice.value, int) else None, f'{var}[i]', rname)
+        elif isinstance(rtarget, ast.Tuple):
+            # [{k: a, ...} for a, b, c in <stored list>]: the i-th name of the unpacking is position i
+            order = [x.id for x in rtarget.elts]  # type: ignore[attr-defined]
+            ctx.need(len(set(order)) == len(order), f'{rname}: unpacking target repeats a name')
+            ctx.need(_traces_to_spec(r, riter, rspec), f'{rname}: the records are not read from the stored spec (`{short(pf.nsrc(riter), 50)}`)')  # type: ignore[arg-type]
+            rmap = _reader_record(ctx, rd, lambda v, order=order: order.index(v.id) if isinstance(v, ast.Name) and v.id in order else None, 'a name of the unpacked record', rname)  # type: ignore[arg-type]
+        else:
+            # {k: var[i], ...} with var = spec[j]   |   a, b = var ... {k: a, ...}
+            unpack: Dict[str, Tuple[str, int]] = {}
+            for n in pf.walk_shallow(r):
+                if isinstance(n, ast.Assign) and len(n.targets) == 1 and isinstance(n.targets[0], ast.Tuple) and all(isinstance(x, ast.Name) for x in n.targets[0].elts) \
+                        and isinstance(n.value, ast.Name):
+                    for i_, x in enumerate(n.targets[0].elts):
+                        ctx.need(x.id not in unpack and len(pf.assignments(r).get(x.id, [])) == 1, f'{rname}: `{x.id}` is assigned more than once')  # type: ignore[attr-defined]
+                        unpack[x.id] = (n.value.id, i_)  # type: ignore[attr-defined]
+
+            def pos(v: ast.AST):
+                if isinstance(v, ast.Subscript) and isinstance(v.value, ast.Name) and isinstance(v.slice, ast.Constant) and isinstance(v.slice.value, int):
+                    return v.value.id, v.slice.value
+                if isinstance(v, ast.Name) and v.id in unpack:
+                    return unpack[v.id]
+                return None
+            bases = {pos(_strip(vv))[0] for vv in rd.values if pos(_strip(vv)) is not None}  # type: ignore[union-attr,index]
+            ctx.need(len(bases) == 1, f'{rname}: record built from {sorted(bases)}')
+            rvar = bases.pop()
             # the variable must be the stored field itself: <var> = spec[i]
-            d0 = pf.single_def(r, rvar)
-            ctx.need(isinstance(d0, ast.Subscript) and pf.nsrc(d0.value) == rspec, f'{rname}: `{rvar}` is not spec[i]')
-        rmap = _reader_record(ctx, rd, rvar, rname)  # type: ignore[arg-type]
+            ctx.need(_traces_to_spec(r, ast.Name(id=rvar, ctx=ast.Load()), rspec), f'{rname}: `{rvar}` is not spec[i]')
+            rmap = _reader_record(ctx, rd, lambda v, rvar=rvar: pos(v)[1] if pos(v) is not None and pos(v)[0] == rvar else None, f'{rvar}[i]', rname)  # type: ignore[index]
         cons = f'{F}::{CLS}.{rname}::record of {tag}'
         inv = {k: i for i, k in wmap.items()}
         problems = []
@@ -706,11 +778,66 @@ def _encoder(ctx: Ctx, m: pf.Module, w: pf.FuncDef, wp: List[str]) -> Tuple[_Enc
     return enc, amount
 
 
+def _strip_early_returns(ctx: Ctx, m: pf.Module, fn: pf.FuncDef, role: str) -> pf.FuncDef:
+    """Top-level `if <test>: return <value>` shortcuts in front of the encoder / decoder body.  A shortcut taken only for "nothing selected" (None / empty /
+    a zero or negative bit set) is set aside and the body analysed without it.  A shortcut that a NON-EMPTY selection (a non-NULL bit set) can take and that answers a
+    constant is the store-site mistake inside the function: the constant is what "no selection" gives, so the selected set is not recovered.  Anything else is declined."""
+    import copy
+    params = [a.arg for a in fn.args.args]
+    x, mp = params[0], params[1]
+    cons = f'{FU}::{fn.name}::shortcut return'
+
+    def is_x(e: ast.AST) -> bool:
+        return pf.nsrc(_peel_set(e)) == x
+    keep: List[ast.stmt] = []
+    stripped = 0
+    for st in fn.body:
+        if not (isinstance(st, ast.If) and not st.orelse and len(st.body) == 1 and isinstance(st.body[0], ast.Return)):
+            keep.append(st)
+            continue
+        rv = st.body[0].value
+        atoms = absdom.bool_atoms(st.test, [])
+        free = [a for a in atoms if _presence_atom(a, is_x, 'nonempty', None) is None]
+        # integer comparisons of the bit set with 0 (`bits == 0`, `bits <= 0`, `bits < 0`, `not bits`): no selection at all
+        zeroish = [a for a in free if isinstance(a, ast.Compare) and len(a.ops) == 1 and is_x(a.left) and isinstance(a.comparators[0], ast.Constant) and a.comparators[0].value == 0
+                   and isinstance(a.ops[0], (ast.Eq, ast.LtE, ast.Lt))]
+        free = [a for a in free if not any(a is z for z in zeroish)]
+        reach = []
+        for fv in absdom.valuations([absdom.atom_key(a) for a in free]):
+            def val(a: ast.AST, fv=fv) -> bool:
+                v_ = _presence_atom(a, is_x, 'nonempty', None)
+                if v_ is not None:
+                    return v_
+                if any(a is z for z in zeroish):
+                    return False
+                return fv[absdom.atom_key(a)]
+            if absdom.eval_bool(st.test, val):
+                reach.append(fv)
+        if not reach:
+            stripped += 1
+            continue  # taken only when nothing is selected
+        const = rv is None or isinstance(rv, ast.Constant) or (isinstance(rv, (ast.List, ast.Tuple)) and not rv.elts)
+        ctx.need(const, f'{cons}: `{short(pf.nsrc(st.test), 60)}` returns `{short(pf.nsrc(rv), 40)}` for some selections; whether that equals what the loop computes is not analysed')
+        what = 'a non-empty selection' if role == 'encoder' else 'a stored (non-NULL) bit set'
+        ctx.bad('R4', cons + f' `{short(pf.nsrc(st.test), 50)}`', f'{what} takes the shortcut `if {short(pf.nsrc(st.test), 70)}: return {pf.nsrc(rv) if rv is not None else "None"}` '
+                f'({_fv_text(reach[0])}): it is answered with the constant that stands for "no selection"'
+                + (' - the front end stores NULL, which the drivers decode as every region supported at scheduling time' if role == 'encoder' else
+                   ' - the drivers replace None by every region the instance collection supports at scheduling time')
+                + f', so the region set recovered for the job is not the set it selected (it changes when `{mp}` gains a region)', m.path, st.lineno)
+        stripped += 1
+    if not stripped:
+        return fn
+    fn2 = copy.copy(fn)
+    fn2.body = keep
+    return fn2
+
+
 def _check_regions(ctx: Ctx) -> None:
     m = pf.load(FU)
     w = m.func('regions_to_bits_rep')
     wp = [a.arg for a in w.args.args]
     ctx.need(len(wp) == 2, f'regions_to_bits_rep parameters {wp}')
+    w = _strip_early_returns(ctx, m, w, 'encoder')
     enc, amount = _encoder(ctx, m, w, wp)
     sh = enc.shift
     cons_w = f'{FU}::regions_to_bits_rep'
@@ -791,8 +918,12 @@ def _decoder(ctx: Ctx, m: pf.Module, aw: int, bw: int, sh: ast.BinOp) -> None:
     r = m.func('regions_bits_rep_to_regions')
     rp = [a.arg for a in r.args.args]
     ctx.need(len(rp) == 2, f'regions_bits_rep_to_regions parameters {rp}')
+    r = _strip_early_returns(ctx, m, r, 'decoder')
     loops = [n for n in pf.walk_shallow(r) if isinstance(n, (ast.For, ast.While))]
     ctx.need(len(loops) == 1, 'regions_bits_rep_to_regions: loop not found')
+    # after the shortcuts for "nothing selected" have been set aside, the only way out is the result list (a return inside the loop is judged below)
+    outside = [n for n in pf.walk_shallow(r) if isinstance(n, ast.Return) and not any(n is x for x in ast.walk(loops[0]))]
+    ctx.need(len(outside) == 1, f'regions_bits_rep_to_regions: {len(outside)} return statements outside the loop (only `return <result>` expected)')
     lp = loops[0]
     cons_r = f'{FU}::regions_bits_rep_to_regions'
     it_base = lp.iter if isinstance(lp, ast.For) else None
@@ -1216,6 +1347,557 @@ def spec_related(fn: pf.FuncDef, V: _Vals, e: ast.AST) -> bool:
     return V.spec in cf.depends_on(fn, e)
 
 
+# --------------------------------------------------------------------------------------
+# R6: the region set at its store site (front end) and load sites (drivers)
+# --------------------------------------------------------------------------------------
+
+ENC, DEC, COL, RKEY = 'regions_to_bits_rep', 'regions_bits_rep_to_regions', 'regions_bits_rep', 'regions'
+_SET_PRESERVING = {'sorted', 'list', 'tuple', 'set', 'frozenset'}
+
+
+def _callee_is(c: ast.AST, name: str) -> bool:
+    return isinstance(c, ast.Call) and ((isinstance(c.func, ast.Name) and c.func.id == name) or (isinstance(c.func, ast.Attribute) and c.func.attr == name))
+
+
+def _regions_map_key(fn: pf.FuncDef, e: ast.AST) -> Optional[str]:
+    """`app['regions']` / `self.app['regions']` / `request.app['regions']` (possibly through a single-definition local) -> 'regions'"""
+    e = pf.resolve_expr(fn, e)
+    if isinstance(e, ast.Subscript) and (pf.dotted(e.value) or '').split('.')[-1] == 'app':
+        return pf.const_str(e.slice)
+    return None
+
+
+def _peel_set(e: ast.AST) -> ast.AST:
+    while isinstance(e, ast.Call) and isinstance(e.func, ast.Name) and e.func.id in _SET_PRESERVING and len(e.args) == 1 and all(k.arg in ('key', 'reverse') for k in e.keywords):
+        e = e.args[0]
+    return e
+
+
+def _spec_field_origin(fn: pf.FuncDef, arg: ast.AST) -> Tuple[Optional[str], Optional[str], ast.AST]:
+    """The list handed to the encoder, traced to `<spec>.get(key)` / `<spec>[key]`: (how it was cut down / defaulted on the way or None, key or None, the origin expression)."""
+    a0 = _peel_set(arg)
+    origin: ast.AST = a0
+    if isinstance(a0, ast.Name):
+        d = pf.single_def(fn, a0.id)
+        if d is None or not isinstance(d, ast.expr):
+            return None, None, a0
+        origin = d
+    lossy = None
+    if isinstance(origin, ast.Subscript) and isinstance(origin.slice, ast.Slice):
+        lossy = f'only the slice `{pf.nsrc(origin)}` of the selected regions is encoded'
+        origin = origin.value
+        if isinstance(origin, ast.Name) and isinstance(pf.single_def(fn, origin.id), ast.expr):
+            origin = pf.single_def(fn, origin.id)  # type: ignore[assignment]
+    if isinstance(origin, ast.BoolOp) and isinstance(origin.op, ast.Or) and len(origin.values) == 2:
+        lossy = lossy or f'a job WITHOUT `regions` is given `{short(pf.nsrc(origin.values[1]), 50)}`'
+        origin = origin.values[0]
+    okey = None
+    if isinstance(origin, ast.Call) and isinstance(origin.func, ast.Attribute) and origin.func.attr == 'get' and origin.args \
+            and (len(origin.args) == 1 or (isinstance(origin.args[1], ast.Constant) and origin.args[1].value is None)) and _regions_map_key(fn, origin.func.value) is None \
+            and (pf.dotted(origin.func.value) or '').split('.')[-1] != 'app':
+        okey = pf.const_str(origin.args[0])
+    elif isinstance(origin, ast.Subscript) and (pf.dotted(origin.value) or '').split('.')[-1] != 'app':
+        okey = pf.const_str(origin.slice)
+    return lossy, okey, origin
+
+
+def _block_of(fn: pf.FuncDef, name: str) -> List[ast.stmt]:
+    """The shortest run of consecutive statements of one block of fn that contains every assignment to `name`."""
+    holders: List[ast.AST] = []
+    for n in pf.walk_shallow(fn):
+        if isinstance(n, ast.Name) and n.id == name and isinstance(n.ctx, (ast.Store, ast.Del)):
+            holders.append(n)
+
+    def blocks(node: ast.AST):
+        for fld in ('body', 'orelse', 'finalbody'):
+            b = getattr(node, fld, None)
+            if isinstance(b, list) and b and isinstance(b[0], ast.stmt):
+                yield b
+        for h in getattr(node, 'handlers', []) or []:
+            yield h.body
+    best: Optional[List[ast.stmt]] = None
+
+    def rec(node: ast.AST) -> None:
+        nonlocal best
+        for b in blocks(node):
+            idx = [i for i, st in enumerate(b) if any(any(x is h for x in ast.walk(st)) for h in holders)]
+            n_in = sum(1 for h in holders if any(any(x is h for x in ast.walk(st)) for st in b))
+            if n_in == len(holders) and idx:
+                best = b[idx[0]:idx[-1] + 1]
+                if len(idx) == 1:
+                    rec(b[idx[0]])
+    rec(fn)
+    if best is None:
+        raise AnalysisError(f'{fn.name}: assignments to `{name}` not found in one block')
+    return best
+
+
+class _Case:
+    """Abstract execution of a statement run: tests are decided by `val`; the last value assigned to each tracked name is kept."""
+
+    def __init__(self, tracked: Sequence[str], val):
+        self.tracked, self.val = set(tracked), val
+        self.env: Dict[str, ast.AST] = {}
+        self.ret: Optional[ast.AST] = None
+
+    def _assigns_tracked(self, st: ast.AST) -> bool:
+        return any(isinstance(x, ast.Name) and x.id in self.tracked and isinstance(x.ctx, (ast.Store, ast.Del)) for x in ast.walk(st))
+
+    def run(self, stmts: Sequence[ast.stmt]) -> str:
+        """'fall' | 'raise' | 'return' | 'leave' (break / continue)"""
+        for st in stmts:
+            if isinstance(st, ast.If):
+                k = self.run(st.body if absdom.eval_bool(st.test, self.val) else st.orelse)
+                if k != 'fall':
+                    return k
+            elif isinstance(st, ast.Raise):
+                return 'raise'
+            elif isinstance(st, ast.Return):
+                self.ret = st.value if st.value is not None else ast.Constant(value=None)
+                return 'return'
+            elif isinstance(st, (ast.Break, ast.Continue)):
+                return 'leave'
+            elif isinstance(st, (ast.With, ast.AsyncWith)):
+                k = self.run(st.body)
+                if k != 'fall':
+                    return k
+            elif isinstance(st, (ast.Assign, ast.AnnAssign)) and self._assigns_tracked(st):
+                tg = st.targets[0] if isinstance(st, ast.Assign) and len(st.targets) == 1 else getattr(st, 'target', None)
+                if not isinstance(tg, ast.Name) or st.value is None:
+                    raise AnalysisError(f'line {st.lineno}: `{short(pf.nsrc(st), 60)}` assigns a tracked name in a form that is not analysed')
+                v = st.value
+                while isinstance(v, ast.IfExp):
+                    v = v.body if absdom.eval_bool(v.test, self.val) else v.orelse
+                self.env[tg.id] = v
+            elif self._assigns_tracked(st):
+                raise AnalysisError(f'line {st.lineno}: `{short(pf.nsrc(st).splitlines()[0], 60)}` assigns a tracked name inside a statement that is not analysed')
+            # any other statement (loops / try blocks that do not touch the tracked names included) does not change what reaches the end of the run
+        return 'fall'
+
+
+def _atoms_of(stmts: Sequence[ast.stmt]) -> List[ast.AST]:
+    atoms: List[ast.AST] = []
+    for st in stmts:
+        for n in ast.walk(st):
+            if isinstance(n, (ast.If, ast.IfExp)):
+                absdom.bool_atoms(n.test, atoms)
+    return atoms
+
+
+def _presence_atom(a: ast.AST, is_x, state: str, truthy_when_present: Optional[bool]) -> Optional[bool]:
+    """Value of a test atom about X for X in state 'absent' (None) | 'empty' | 'nonempty'; None = not a test this domain decides."""
+    present = state != 'absent'
+    if is_x(a):
+        return False if not present else (state == 'nonempty' if truthy_when_present is None else truthy_when_present)
+    if isinstance(a, ast.Compare) and len(a.ops) == 1:
+        l, op, r = a.left, a.ops[0], a.comparators[0]
+        none_r = isinstance(r, ast.Constant) and r.value is None
+        none_l = isinstance(l, ast.Constant) and l.value is None
+        if (is_x(l) and none_r) or (is_x(r) and none_l):
+            if isinstance(op, (ast.Is, ast.Eq)):
+                return not present
+            if isinstance(op, (ast.IsNot, ast.NotEq)):
+                return present
+        if is_x(l) and isinstance(r, (ast.List, ast.Tuple)) and not r.elts and isinstance(op, (ast.Eq, ast.NotEq)) and truthy_when_present is None:
+            return (state == 'empty') == isinstance(op, ast.Eq)
+        if isinstance(l, ast.Call) and pf.dotted(l.func) == 'len' and len(l.args) == 1 and is_x(_peel_set(l.args[0])) and isinstance(r, ast.Constant) \
+                and isinstance(r.value, int) and not isinstance(r.value, bool) and present and truthy_when_present is None:
+            c = r.value
+            f = {ast.Eq: lambda n: n == c, ast.NotEq: lambda n: n != c, ast.Lt: lambda n: n < c, ast.LtE: lambda n: n <= c, ast.Gt: lambda n: n > c, ast.GtE: lambda n: n >= c}.get(type(op))
+            if f is not None:
+                if state == 'empty':
+                    return f(0)
+                # {n >= 1}: decided only when the comparison is constant on it (its threshold lies at 0 / 1)
+                if c <= 0 or (c == 1 and isinstance(op, (ast.Lt, ast.GtE))):
+                    return f(1)
+    if isinstance(a, ast.Call) and pf.dotted(a.func) == 'isinstance' and len(a.args) == 2 and is_x(a.args[0]):
+        types = {pf.nsrc(t) for t in (a.args[1].elts if isinstance(a.args[1], ast.Tuple) else [a.args[1]])}
+        if types <= {'list', 'tuple', 'List', 'Sequence', 'int'}:
+            return present
+    return None
+
+
+def _case_split(ctx: Ctx, stmts: Sequence[ast.stmt], tracked: Sequence[str], is_x, states: Sequence[str], truthy_when_present: Optional[bool], who: str):
+    """[(state, {free atom: value}, outcome kind, env, returned value)] over all states of X and all valuations of the tests the domain does not decide."""
+    atoms = _atoms_of(stmts)
+    out = []
+    for stt in states:
+        free = [absdom.atom_key(a) for a in atoms if _presence_atom(a, is_x, stt, truthy_when_present) is None]
+        free = list(dict.fromkeys(free))
+        ctx.need(len(free) <= 7, f'{who}: too many data-dependent tests ({len(free)})')
+        seen = set()
+        for fv in absdom.valuations(free):
+            def val(a: ast.AST, stt=stt, fv=fv) -> bool:
+                x = _presence_atom(a, is_x, stt, truthy_when_present)
+                return x if x is not None else fv[absdom.atom_key(a)]
+            c = _Case(tracked, val)
+            kind = c.run(stmts)
+            sig = (kind, tuple(sorted((k, id(v)) for k, v in c.env.items())), id(c.ret))
+            if sig in seen:
+                continue
+            seen.add(sig)
+            # only the tests whose outcome matters on this path are part of the witness: flipping any other one alone leaves the result unchanged
+            rel: Dict[str, bool] = {}
+            for k in fv:
+                fv2 = dict(fv)
+                fv2[k] = not fv[k]
+
+                def val2(a: ast.AST, stt=stt, fv2=fv2) -> bool:
+                    x = _presence_atom(a, is_x, stt, truthy_when_present)
+                    return x if x is not None else fv2[absdom.atom_key(a)]
+                c2 = _Case(tracked, val2)
+                k2 = c2.run(stmts)
+                if (k2, tuple(sorted((kk, id(v)) for kk, v in c2.env.items())), id(c2.ret)) != sig:
+                    rel[k] = fv[k]
+            out.append((stt, rel, kind, c.env, c.ret))
+    return out
+
+
+def _fv_text(fv: Dict[str, bool], relevant: Sequence[ast.AST] = ()) -> str:
+    parts = [f'`{short(k, 60)}` is {"true" if v else "false"}' for k, v in fv.items()]
+    return ('when ' + ' and '.join(parts)) if parts else 'on every accepted path'
+
+
+def _insert_columns(m: pf.Module, table: str, col: str) -> Optional[List[str]]:
+    """Column list of the `INSERT INTO <table> (...)` statement (a string constant of the module) that mentions col."""
+    found = None
+    for n in ast.walk(m.tree):
+        if isinstance(n, ast.Constant) and isinstance(n.value, str) and col in n.value:
+            low = ' '.join(n.value.split())
+            head = f'INSERT INTO {table} ('
+            i = low.find(head)
+            if i < 0:
+                continue
+            cols = [c.strip(' `') for c in low[i + len(head):low.index(')', i)].split(',')]
+            if col in cols:
+                if found is not None and found != cols:
+                    return None
+                found = cols
+    return found
+
+
+def _check_region_sites(ctx: Ctx) -> None:
+    roots = ['batch/batch/front_end', 'batch/batch/driver'] if ctx.tier != 'thorough' else ['batch/batch']
+    files = [f for f in pf.walk_py(roots) if f != FU]
+    enc_sites, dec_sites = [], []
+    from engines.common import read_repo
+    for rel in files:
+        txt = read_repo(rel)
+        if ENC not in txt and DEC not in txt:
+            continue
+        m = pf.load(rel)
+        for n in ast.walk(m.tree):
+            if _callee_is(n, ENC):
+                enc_sites.append((m, n))
+            elif _callee_is(n, DEC):
+                dec_sites.append((m, n))
+    ctx.need(enc_sites, f'no call of {ENC} under {roots}')
+    ctx.need(dec_sites, f'no call of {DEC} under {roots}')
+    empty_rejected = True
+    # several encoder calls assigning the same local of one function form ONE store site (one of them encodes the job's list, the others are alternative values)
+    groups: Dict[Tuple[str, str, str], List[ast.Call]] = {}
+    for m, call in enc_sites:
+        fn = m.enclosing_func(call)
+        st = m.parents().get(call)
+        while st is not None and not isinstance(st, ast.stmt):
+            st = m.parents().get(st)
+        tg = st.targets[0] if isinstance(st, ast.Assign) and len(st.targets) == 1 else getattr(st, 'target', None)
+        groups.setdefault((m.rel, m.qualname(fn) if fn is not None else '', tg.id if isinstance(tg, ast.Name) else f'line {call.lineno}'), []).append(call)
+    for (rel, _, _), calls in groups.items():
+        m = pf.load(rel)
+        fn = m.enclosing_func(calls[0])
+        primary = [c for c in calls if fn is not None and len(c.args) == 2 and _spec_field_origin(fn, c.args[0])[1] is not None] or calls
+        empty_rejected = _store_site(ctx, m, primary[0]) and empty_rejected
+    for m, call in dec_sites:
+        _load_site(ctx, m, call, empty_rejected)
+    ctx.unit('region_store_sites', len(enc_sites))
+    ctx.unit('region_load_sites', len(dec_sites))
+
+
+def _store_site(ctx: Ctx, m: pf.Module, call: ast.Call) -> bool:
+    """The bit set is computed from the job's `regions` exactly when the job has one.  Returns whether an empty list is rejected before the store."""
+    fn = m.enclosing_func(call)
+    ctx.need(fn is not None and len(call.args) == 2 and not call.keywords, f'{m.rel}: {ENC} call at line {call.lineno} is not {ENC}(selected, mapping) inside a function')
+    q = m.qualname(fn)
+    base = f'{m.rel}::{q}::stored {COL}'
+    par = m.parents()
+    st = par.get(call)
+    while st is not None and not isinstance(st, ast.stmt):
+        st = par.get(st)
+    ctx.need(isinstance(st, (ast.Assign, ast.AnnAssign)) and isinstance(st.targets[0] if isinstance(st, ast.Assign) else st.target, ast.Name),
+             f'{base}: `{short(pf.nsrc(st) if st is not None else "?", 60)}` does not assign the encoded set to a local')
+    V = (st.targets[0] if isinstance(st, ast.Assign) else st.target).id  # type: ignore[union-attr]
+    # `bits = encode(...)` ... `regions_bits_rep = bits`: the stored variable is the one the single-definition local is copied into
+    for _ in range(2):
+        copies = [n.targets[0].id for n in pf.walk_shallow(fn) if isinstance(n, ast.Assign) and len(n.targets) == 1 and isinstance(n.targets[0], ast.Name)
+                  and isinstance(n.value, ast.Name) and n.value.id == V]
+        if len(set(copies)) == 1 and isinstance(pf.single_def(fn, V), ast.expr):
+            V = copies[0]
+    # the mapping
+    key = _regions_map_key(fn, call.args[1])
+    ctx.need(key is not None, f'{base}: mapping argument `{pf.nsrc(call.args[1])}` is not <app>[...]')
+    ctx.check(key == RKEY, 'R6', base + '::mapping', f'{ENC} is given `{pf.nsrc(call.args[1])}`, not the region-name -> id mapping app[\'{RKEY}\'] the drivers decode with: '
+              'the stored bits denote other regions', m.path, call.lineno)
+    # the selected list: the job spec's `regions`
+    a0 = _peel_set(call.args[0])
+    sel_texts: set = set()
+    if isinstance(a0, ast.Name):
+        sel_texts.add(a0.id)
+        ctx.need(isinstance(pf.single_def(fn, a0.id), ast.expr), f'{base}: `{a0.id}` is assigned more than once')
+    lossy, okey, origin = _spec_field_origin(fn, call.args[0])
+    ctx.need(okey is not None, f'{base}: the encoded list `{short(pf.nsrc(call.args[0]), 40)}` = `{short(pf.nsrc(origin), 50)}` is not the `{RKEY}` field of the job spec')
+    sel_texts.add(pf.nsrc(origin))
+    if lossy is not None or okey != RKEY:
+        ctx.bad('R6', base + '::encodes the selected regions', (lossy or f'the encoded list is spec[{okey!r}], not spec[{RKEY!r}]') + f': the stored {COL} does not denote the region set the job selected, '
+                'so the drivers recover a different set', m.path, call.lineno)
+        return True
+
+    def is_x(e: ast.AST) -> bool:
+        return pf.nsrc(_peel_set(e)) in sel_texts
+    stmts = _block_of(fn, V)
+    cases = _case_split(ctx, stmts, [V], is_x, ['absent', 'empty', 'nonempty'], None, base)
+    atoms = _atoms_of(stmts)
+    bad_present, bad_absent, unassigned, other = [], [], [], []
+    empty_stored = False
+    for stt, fv, kind, env, _ in cases:
+        if kind != 'fall':
+            continue  # rejected (raise) or the job is skipped: nothing is stored on this path
+        v = env.get(V)
+        if v is None:
+            unassigned.append((stt, fv))
+            continue
+        if isinstance(v, ast.Name):
+            v = pf.resolve_expr(fn, v)  # `bits = encode(...)` ... `regions_bits_rep = bits`
+        is_enc = _callee_is(v, ENC) and len(v.args) == 2 and is_x(v.args[0])  # type: ignore[attr-defined]
+        is_null = isinstance(v, ast.Constant) and v.value is None
+        if stt == 'empty' and (is_enc or is_null):
+            empty_stored = True
+        if stt == 'absent':
+            if not is_null and not is_enc:
+                bad_absent.append((fv, v))
+        elif is_null:
+            bad_present.append((stt, fv, v))
+        elif not is_enc:
+            other.append((stt, fv, v))
+    ctx.need(not unassigned, f'{base}: on some path `{V}` is not assigned next to the other assignments (reaching definition not analysed)')
+    ctx.need(not other, f'{base}: `{V}` is also assigned `{short(pf.nsrc(other[0][2]), 50)}`, which is neither {ENC}(<selected>, ...) nor None' if other else '')
+    if bad_present:
+        stt, fv, v = bad_present[0]
+        cond = _fv_text(fv)
+        ctx.bad('R6', base + '::a selected set is stored as its bit set',
+                f'a job that selects regions ({"an empty list" if stt == "empty" else "a non-empty `regions` list"}) is stored with {COL} = NULL {cond} (`{V} = None` instead of '
+                f'{ENC}({sorted(sel_texts)[0]}, app[\'{RKEY}\'])). The drivers read NULL as "every region the instance collection supports at scheduling time" '
+                '(pool.all_supported_regions / inst_coll_manager.regions), so the region set recovered for the job is the deployment\'s CURRENT list, not the set the job selected: '
+                'a job restricted to {us-central1, us-east1} that waits while a third region is added is scheduled there',
+                m.path, getattr(v, 'lineno', call.lineno), extra={'condition': {k: fv[k] for k in fv}})
+    else:
+        ctx.ok('R6', base + '::a selected set is stored as its bit set', {'cases': len(cases)})
+    if bad_absent:
+        fv, v = bad_absent[0]
+        ctx.bad('R6', base + '::no selection is stored as NULL', f'a job WITHOUT `regions` is stored with {COL} = `{short(pf.nsrc(v), 60)}` {_fv_text(fv)}: it is pinned to the regions known at '
+                'submission, although it selected none (the drivers recover a concrete set for a job that has none)', m.path, getattr(v, 'lineno', call.lineno))
+    else:
+        ctx.ok('R6', base + '::no selection is stored as NULL', None)
+    # the value reaches the INSERT at the position of its column
+    cols = _insert_columns(m, 'jobs', COL)
+    ctx.need(cols is not None, f'{m.rel}: the `INSERT INTO jobs (...)` statement with column {COL} was not found (or there are several different ones)')
+    tuples = [t for t in ast.walk(fn) if isinstance(t, ast.Tuple) and isinstance(t.ctx, ast.Load) and len(t.elts) == len(cols) and any(isinstance(x, ast.Name) and x.id == V for x in t.elts)]  # type: ignore[arg-type]
+    ctx.need(len(tuples) == 1, f'{base}: {len(tuples)} argument tuples of {len(cols)} values mention `{V}`')  # type: ignore[arg-type]
+    i = cols.index(COL)  # type: ignore[union-attr]
+    at = tuples[0].elts[i]
+    where = [cols[j] for j, x in enumerate(tuples[0].elts) if isinstance(x, ast.Name) and x.id == V]  # type: ignore[index]
+    ctx.check(isinstance(at, ast.Name) and at.id == V, 'R6', base + '::column position', f'the INSERT lists {COL} as column {i + 1} but the argument tuple has `{short(pf.nsrc(at), 40)}` there '
+              f'(`{V}` is passed for {where}): the bit set is stored in another column and {COL} receives another value', m.path, tuples[0].lineno)
+    return not empty_stored
+
+
+def _load_site(ctx: Ctx, m: pf.Module, call: ast.Call, empty_rejected: bool) -> None:
+    """A stored (non-NULL) bit set is always decoded by the decoder, with the mapping it was encoded with, from the unmodified column value."""
+    fn = m.enclosing_func(call)
+    ctx.need(fn is not None and len(call.args) == 2 and not call.keywords, f'{m.rel}: {DEC} call at line {call.lineno} is not {DEC}(bits, mapping) inside a function')
+    q = m.qualname(fn)
+    base = f'{m.rel}::{q}::decoded {COL}'
+    par = m.parents()
+    key = _regions_map_key(fn, call.args[1])
+    ctx.need(key is not None, f'{base}: mapping argument `{pf.nsrc(call.args[1])}` is not <app>[...]')
+    # the operand is the stored column
+    b = call.args[0]
+    btexts = {pf.nsrc(b)}
+    origin: Optional[ast.AST] = b
+    params = {a.arg for a in fn.args.posonlyargs + fn.args.args + fn.args.kwonlyargs}
+    if isinstance(b, ast.Name) and b.id in params:
+        # a small helper `def extract(bits): ...`: the argument at its call sites in the enclosing function
+        outer = m.enclosing_func(fn)
+        ctx.need(outer is not None, f'{base}: `{b.id}` is a parameter of a module-level function (call sites not analysed)')
+        idx = [a.arg for a in fn.args.args].index(b.id)
+        uses = [c for c in ast.walk(outer) if isinstance(c, ast.Call) and isinstance(c.func, ast.Name) and c.func.id == fn.name]  # type: ignore[arg-type]
+        refs = [x for x in ast.walk(outer) if isinstance(x, ast.Name) and x.id == fn.name and isinstance(x.ctx, ast.Load)]  # type: ignore[arg-type]
+        ctx.need(uses and len(uses) == len(refs) and all(len(c.args) > idx for c in uses), f'{base}: the helper {fn.name} is not only called directly')
+        origins = {pf.nsrc(pf.resolve_expr(outer, c.args[idx])) for c in uses}  # type: ignore[arg-type]
+        ctx.need(len(origins) == 1, f'{base}: {fn.name} is called with different operands {sorted(origins)}')
+        origin = pf.resolve_expr(outer, uses[0].args[idx])  # type: ignore[arg-type]
+    elif isinstance(b, ast.Name):
+        d = pf.single_def(fn, b.id)
+        ctx.need(d is not None and isinstance(d, ast.expr), f'{base}: `{b.id}` is assigned more than once')
+        origin = d
+        btexts.add(pf.nsrc(d))  # type: ignore[arg-type]
+    okey = None
+    if isinstance(origin, ast.Subscript):
+        okey = pf.const_str(origin.slice)
+    elif isinstance(origin, ast.Call) and isinstance(origin.func, ast.Attribute) and origin.func.attr == 'get' and len(origin.args) == 1:
+        okey = pf.const_str(origin.args[0])
+    ctx.need(okey is not None, f'{base}: operand `{short(pf.nsrc(origin), 50)}` is not a column of the job record')  # type: ignore[arg-type]
+    ctx.check(okey == COL and key == RKEY, 'R6', base + '::operand and mapping',
+              (f'the decoder is applied to record[{okey!r}], not to the stored {COL}' if okey != COL else
+               f'the bit set was encoded with app[\'{RKEY}\'] but is decoded with `{pf.nsrc(call.args[1])}`: bit k denotes another region') + ': the recovered region set differs from the selected one',
+              m.path, call.lineno)
+
+    def is_x(e: ast.AST) -> bool:
+        return pf.nsrc(e) in btexts
+    st = par.get(call)
+    while st is not None and not isinstance(st, ast.stmt):
+        st = par.get(st)
+    if isinstance(st, ast.Return):
+        stmts: Sequence[ast.stmt] = af_body(fn)
+        tracked: List[str] = []
+    else:
+        ctx.need(isinstance(st, ast.Assign) and len(st.targets) == 1 and isinstance(st.targets[0], ast.Name), f'{base}: `{short(pf.nsrc(st) if st is not None else "?", 60)}` is neither '
+                 'a return nor an assignment to a local')
+        tracked = [st.targets[0].id]  # type: ignore[union-attr]
+        stmts = _block_of(fn, tracked[0])
+    cases = _case_split(ctx, stmts, tracked, is_x, ['absent', 'nonempty'], True if empty_rejected else None, base)
+    atoms = _atoms_of(stmts)
+    bad = []
+    for stt, fv, kind, env, ret in cases:
+        if stt == 'absent':
+            continue  # NULL = the job selected nothing; what the driver substitutes then is not a stored value
+        if tracked:
+            if kind != 'fall':
+                continue
+            v = env.get(tracked[0])
+            ctx.need(v is not None, f'{base}: on some path `{tracked[0]}` is not assigned next to the decoder call')
+        else:
+            if kind == 'raise':
+                continue
+            ctx.need(kind == 'return', f'{base}: a path of {fn.name} does not return')
+            v = ret
+        if not (_callee_is(v, DEC) and is_x(v.args[0])):  # type: ignore[union-attr]
+            bad.append((fv, v))
+    if bad:
+        fv, v = bad[0]
+        ctx.bad('R6', base + '::a stored bit set is decoded', f'for a job whose {COL} is NOT NULL the regions are taken to be `{short(pf.nsrc(v), 60)}` {_fv_text(fv)}, instead of '
+                f'{DEC}({COL}, app[\'{RKEY}\']): the region set recovered for the job is not the one encoded in its stored bit set', m.path, getattr(v, 'lineno', call.lineno))
+    else:
+        ctx.ok('R6', base + '::a stored bit set is decoded', {'cases': len(cases)})
+
+
+def af_body(fn: pf.FuncDef) -> List[ast.stmt]:
+    body = list(fn.body)
+    if body and isinstance(body[0], ast.Expr) and isinstance(body[0].value, ast.Constant) and isinstance(body[0].value.value, str):
+        body = body[1:]
+    return body
+
+
+# --------------------------------------------------------------------------------------
+# R7: the decoded value is a function of the stored value only (built afresh on every call)
+# --------------------------------------------------------------------------------------
+
+
+def _consumer_files(ctx: Ctx) -> List[str]:
+    roots = ['batch/batch/driver', 'batch/batch/front_end'] if ctx.tier != 'thorough' else ['batch/batch']
+    return [f for f in pf.walk_py(roots) if f != F]
+
+
+def _check_fresh(ctx: Ctx, m: pf.Module) -> List[str]:
+    """A reader must not hand out an object that outlives the call (memoising decorator on it or on a helper, a module-level cache it stores into): the
+    consumers decorate what they get (driver/job.py::job_config adds `data` to every secret and appends a kube-config entry), so a shared object makes the NEXT
+    decode of the same stored value return something that was never stored.  Decided per reader on the un-inlined module: which levels of the returned object are
+    persistent (exact on recognised shapes), and is there a consumer that mutates that level."""
+    fr = cf.Freshness(m)
+    undecided: List[str] = []
+    from engines.common import read_repo
+    consumers = [pf.load(f) for f in _consumer_files(ctx) if 'get_spec_' in read_repo(f)]
+    n_sites = 0
+    for rname in READERS:
+        q = f'{CLS}.{rname}'
+        cons = f'{F}::{q}::decoded value is built afresh'
+        cone = fr.cone(q)
+        unk = [f'{c}: @{d}' for c in cone for d in fr.unknown_decorators(c)]
+        if unk:
+            undecided.append(f'{cons}: decorator not recognised ({unk[0]}); what the decorated function returns is not analysed')
+            continue
+        inst = fr.instance_state_writes(cone)
+        if inst:
+            undecided.append(f'{cons}: the reader (or a helper) writes instance state ({inst[0]}); whether a decoded value is kept across calls on one instance is not analysed')
+            continue
+        pg = fr.persistent_globals(cone)
+        fn = fr.mf.by_q[q]
+        rets = [n.value for n in pf.walk_shallow(fn) if isinstance(n, ast.Return) and n.value is not None]
+        if fr.memo_of(q) is not None:
+            dd = fr.ret_depth(q)
+            levels = None if dd is None else set(range(1, dd + 1))
+        else:
+            levels = set()
+            for r in rets:
+                lv = fr.shared(q, r, pg)
+                if lv is None:
+                    levels = None
+                    break
+                levels |= lv
+        if levels is None:
+            undecided.append(f'{cons}: cannot decide whether the returned object is kept across calls')
+            continue
+        sites = 0
+        wit: List[cf.Witness] = []
+        for cm_ in consumers:
+            k, ws = cf.reader_mutations(cm_, rname)
+            sites += k
+            wit += ws
+        n_sites += sites
+        if not levels:
+            ctx.ok('R7', cons, {'call sites': sites, 'consumer mutations (harmless on a fresh object)': len(wit)})
+            continue
+        memo = [f'{c} is wrapped in @{fr.memo_of(c)}' for c in cone if fr.memo_of(c) is not None] + [f'the container `{g}`, which outlives the call, is filled by {sorted({x for x, _ in v})[0]}' for g, v in pg.items()]
+        lv_txt = ' and '.join({1: 'the returned container itself', 2: 'its elements'}.get(k_, f'level {k_}') for k_ in sorted(levels))
+        hit = [w for w in wit if w.level in levels]
+        if hit:
+            w = hit[0]
+            more = f' (and {len(hit) - 1} more: ' + '; '.join(f'`{x.text}` line {x.line}' for x in hit[1:3]) + ')' if len(hit) > 1 else ''
+            ctx.bad('R7', cons, f'{rname} hands every caller the SAME object for equal stored values ({"; ".join(memo) or "it returns a module-level / default-value object"}: shared are {lv_txt}), and the consumer '
+                    f'{w.rel}::{w.func} mutates what it receives (`{w.text}`, line {w.line}){more}. History: job J1 is decoded and the consumer decorates the result; decoding the '
+                    f'identical stored value for job J2 (same user, hence the same compact value) returns the decorated object - e.g. a secrets list that now also holds J1\'s kube-config '
+                    f'entry and stale `data` - which is not what was stored. The decoded value must be a function of the stored value only (build it afresh, or copy it deeply)',
+                    m.path, fn.lineno, extra={'shared_levels': sorted(levels), 'witnesses': [f'{x.rel}:{x.line} {x.text}' for x in hit[:5]]})
+        else:
+            undecided.append(f'{cons}: the returned object ({lv_txt}) is shared between calls ({"; ".join(memo)}) and no consumer mutation of it was found in {len(consumers)} file(s); '
+                             'aliasing beyond those call sites is not analysed')
+    ctx.unit('reader_call_sites', n_sites)
+    return undecided
+
+
+def _inline_module_helpers(m: pf.Module, targets: Sequence[str]) -> Tuple[pf.Module, int]:
+    """Copy of m in which calls of module-level helper functions are inlined into the given methods of the class.  A memoising decorator is dropped for this
+    purpose only: for ONE call the memoised function returns what its body computes (R7 judges the sharing between calls on the original module)."""
+    import copy
+    tree = copy.deepcopy(m.tree)
+    m2 = pf.Module(m.rel, m.path, m.src, tree)
+    helpers: Dict[str, pf.FuncDef] = {}
+    for f in tree.body:
+        if isinstance(f, (ast.FunctionDef, ast.AsyncFunctionDef)):
+            h = copy.deepcopy(f)
+            h.decorator_list = [d for d in h.decorator_list if cf.memo_decorator(m, d) is None]
+            helpers[f.name] = h
+    n = 0
+    if not helpers:
+        return m, 0
+    for t in targets:
+        fn = m2.func(f'{CLS}.{t}')
+        il = Inliner(helpers, None)
+        il.run(fn)
+        n += len(il.inlined)
+    return (m2, n) if n else (m, 0)
+
+
 def run(ctx: Ctx) -> None:
     ctx.explanation = ('db_spec and every get_spec_* reader are executed abstractly for each format version 1..BATCH_FORMAT_VERSION (version guards evaluated, data tests enumerated); '
                        'position<->field tables, inner key<->index tables and the linear forms of the region shifts are compared.')
@@ -1226,11 +1908,16 @@ def run(ctx: Ctx) -> None:
                    'is truth-tested in the writer or a reader, and no absent field is replaced by a truthy default', 6)
     ctx.rule('R4', 'region bit set: same linear shift in writer and reader, idempotent accumulation (or: provably distinct terms), bits within [0,62], one-bit mask, '
                    'names returned under the test, every known region tested', 8)
+    ctx.rule('R6', 'region set at its store and load sites: a job with `regions` is stored as regions_to_bits_rep(<that list>, app[regions]) on every accepted path and a job without as NULL, '
+                   'the value reaches the regions_bits_rep column of the INSERT; every driver decodes a non-NULL column value with the decoder and the same mapping', 10)
     ctx.assume('region ids are distinct integers >= 1 (AUTO_INCREMENT, gaps allowed) and the column is a signed BIGINT')
     ctx.assume('an optional str/list/dict field of the job spec that is empty denotes the same spec as an absent one (front_end normalises `not secrets` to [])')
     ctx.assume('batches keep the format version they were created with; updates of a batch use that stored version (front_end._create_jobs)')
+    ctx.rule('R7', 'every reader builds the decoded value afresh from the stored spec: no object that outlives the call (memoised helper, module-level cache) is handed to '
+                   'consumers that mutate it', 5)
     m = pf.load(F)
     ctx.unit('files', 2)
+    undecided7 = _check_fresh(ctx, m)
     mg = pf.load(FG)
     cur = mg.global_assign('BATCH_FORMAT_VERSION')
     ctx.need(isinstance(cur, ast.Constant) and isinstance(cur.value, int) and 1 <= cur.value <= 64, 'BATCH_FORMAT_VERSION is not a small integer literal')
@@ -1250,11 +1937,15 @@ def run(ctx: Ctx) -> None:
             continue
         if il.inlined:
             m, n_inl = m2, n_inl + len(il.inlined)
+    m, n_mod = _inline_module_helpers(m, ['db_spec'] + list(READERS))
+    n_inl += n_mod
     if n_inl:
         ctx.unit('helpers_inlined', n_inl)
     _check_positions(ctx, m, current)
     undecided = _check_truthiness(ctx, m, current)
     _check_records(ctx, m, current)
     _check_regions(ctx)
-    if undecided:  # truth tests whose value could not be classified: declined, after everything that could be decided was reported
+    _check_region_sites(ctx)
+    undecided = undecided + undecided7
+    if undecided:  # what could not be classified: declined, after everything that could be decided was reported
         raise AnalysisError(undecided[0])
